@@ -70,7 +70,7 @@ func c37Message(t *rapid.T, label string) (string, []string) {
 			sb.WriteByte(byte(rapid.IntRange(0, 0x1f).Draw(t, label+"ctrl")))
 		}
 	}
-	if rapid.IntRange(0, 199).Draw(t, label+"big") == 0 {
+	if rapid.IntRange(0, 299).Draw(t, label+"big") == 137 {
 		unit := rapid.SampledFrom([]string{"a", "\xff", "\x00", "é\n", "\"\\"}).Draw(t, label+"bigunit")
 		sb.WriteString(strings.Repeat(unit, 65536/len(unit)))
 		cls = append(cls, "msg-64k")
@@ -163,20 +163,30 @@ func c37RecordGen(t *rapid.T) (c37Record, []string) {
 	return r, cls
 }
 
+// c37Lazy renders a description only when a failure message is actually formatted.
+type c37Lazy func() string
+
+func (l c37Lazy) String() string { return l() }
+
 type c37Fataler interface {
 	Fatalf(string, ...any)
 }
 
 // c37JudgeLine checks one output line (without its final newline) against the record.
 func c37JudgeLine(t c37Fataler, where string, line []byte, r c37Record) {
-	desc := fmt.Sprintf("level=%d time=%s format=%q args=%q", r.level, r.instant.Format(time.RFC3339Nano), r.format, r.args)
-	if len(desc) > 1500 {
-		desc = desc[:1500] + "…"
-	}
-	show := string(line)
-	if len(show) > 600 {
-		show = show[:600] + "…"
-	}
+	desc := c37Lazy(func() string {
+		d := fmt.Sprintf("level=%d time=%s format=%q args=%q", r.level, r.instant.Format(time.RFC3339Nano), r.format, r.args)
+		if len(d) > 1500 {
+			d = d[:1500] + "…"
+		}
+		return d
+	})
+	show := c37Lazy(func() string {
+		if len(line) > 600 {
+			return string(line[:600]) + "…"
+		}
+		return string(line)
+	})
 	if bytes.ContainsAny(line, "\n\r") {
 		t.Fatalf("%s: the record spans several lines: %q\n%s", where, show, desc)
 	}
